@@ -76,7 +76,9 @@ def in_block(block, lines, ind, tail_return=None):
 
 
 def build_case(fail_idx, kinds, block, module_from=None, recursion_n=2):
-    """kinds: frame kinds for levels 1..d (outermost first).  module_from: levels >= this live in `lib.ms`.
+    """kinds: frame kinds for levels 1..d (outermost first).  module_from: levels >= this live in `lib.ms`;
+    module_from == 0: everything lives in lib.ms and is run by lib's own top-level code, i.e. the failure
+    happens while the import statement of main.ms is still executing (module initialisation).
     Returns dict(files, expected_lines, expected_frames (innermost first, labels or ('anon', key)), fail line info)."""
     fid, setup, stmt = FAILS[fail_idx]
     d = len(kinds)
@@ -165,9 +167,18 @@ def build_case(fail_idx, kinds, block, module_from=None, recursion_n=2):
 
     helper = ["helper = fn(hx: int) -> int {", "  print \"helper\"", "  return hx + 1", "}"]
     main += helper
-    uses_lib = module_from is not None and module_from <= d
+    uses_lib = module_from is not None and (module_from <= d or module_from == 0)
+    # layout variety (positions reported for one file must not depend on what was compiled before it):
+    # passing asserts earlier in main / in the imported module, behind headers of different line density
+    layout = (fail_idx + d + (module_from or 0) + len(block)) % 6
+    if layout % 2 == 0:
+        main.append("assert 2 > 1")
     if uses_lib:
-        lib += ["helper = fn(hx: int) -> int {", "  print \"helper\"", "  return hx + 1", "}"]
+        if layout // 2 == 1:
+            lib += ["# " + "long comment line " * 4] * 3
+        elif layout // 2 == 2:
+            lib += ["# c"] * 14
+        lib += ["assert 1 < 2", "helper = fn(hx: int) -> int {", "  print \"helper\"", "  return hx + 1", "}"]
     for lvl in range(d, 0, -1):
         lines, where, kind = defs[lvl]
         if where == "lib":
@@ -185,16 +196,20 @@ def build_case(fail_idx, kinds, block, module_from=None, recursion_n=2):
         else:
             main += lines
     # module-level driver
-    if uses_lib:
-        # the import goes after main's own definitions that do not need it, but before the first use
-        first_main_needing = 0
+    if uses_lib and module_from != 0:
         main = ["import lib"] + main
     main.append("print \"start\"")
+    driver = main
+    if module_from == 0:
+        driver = lib
     if d == 0:
-        main += in_block(block, failing_lines("7", "q0"), 0)
+        driver += in_block(block, failing_lines("7", "q0"), 0)
     else:
         pre, call = call_of[1]("7")
-        main += pre + ["top_r = %s" % call]
+        driver += pre + ["top_r = %s" % call]
+    if module_from == 0:
+        lib.append("print \"unreachable end of lib\"")
+        main.append("import lib")
     main.append("print \"unreachable end\"")
     files = {"main.ms": "\n".join(main) + "\n"}
     if uses_lib:
@@ -202,6 +217,8 @@ def build_case(fail_idx, kinds, block, module_from=None, recursion_n=2):
     # expected output and frames
     out = ["start"]
     fr = [("main.mmm", "__module__")]
+    if module_from == 0:
+        fr.append(("lib.mmm", "__module__"))
     for lvl in range(1, d + 1):
         kind = kinds[lvl - 1]
         where = "lib" if (module_from is not None and lvl >= module_from) else "main"
@@ -346,17 +363,19 @@ def gen_items(ctx):
                 items.append((fi, tuple([k] * d), BLOCKS[d % len(BLOCKS)], None, "cat"))
         for d in range(1, 7):
             chain = tuple(FRAME_KINDS[(j + d) % len(FRAME_KINDS)] for j in range(d))
-            for mf in (None, 1, d):
+            for mf in (None, 1, d, 0):
                 items.append((fi, chain, BLOCKS[(d + 1) % len(BLOCKS)], mf, "cat"))
         for b in BLOCKS:
             items.append((fi, ("function", "closure", "method"), b, None, "cat"))
             items.append((fi, (), b, None, "cat"))
+            items.append((fi, (), b, 0, "cat"))
+            items.append((fi, ("function", "method"), b, 0, "cat"))
     ncat = len(items)
     rng = ctx.rng("chains")
     for _ in range(ctx.n(2500, 40000)):
         d = rng.randint(0, 6)
         kinds = tuple(rng.choice(FRAME_KINDS) for _ in range(d))
-        mf = rng.choice([None, None, rng.randint(1, d)]) if d else None
+        mf = rng.choice([None, None, rng.randint(1, d), 0]) if d else rng.choice([None, None, 0])
         items.append((rng.randrange(nf), kinds, rng.choice(BLOCKS), mf, "rand"))
     return items, ncat
 
